@@ -186,14 +186,14 @@ Proof.
 Qed.
 
 Lemma ifthen_spec c v x a :
-  mod_ifthen c v (x :: a) = (c, (if check_true c v then Some x else None), None).
+  mod_ifthen c v (x :: a) = ((if check_true c v then own_arg c x else c), (if check_true c v then Some x else None), None).
 Proof. unfold mod_ifthen. destruct (check_true c v); reflexivity. Qed.
 
 Lemma ifthen_arity c v : mod_ifthen c v [] = (c, None, Some EModNoArgs).
 Proof. reflexivity. Qed.
 
 Lemma ifthenelse_spec c v x y a :
-  mod_ifthenelse c v (x :: y :: a) = (c, Some (if check_true c v then x else y), None).
+  mod_ifthenelse c v (x :: y :: a) = (own_arg c (if check_true c v then x else y), Some (if check_true c v then x else y), None).
 Proof. unfold mod_ifthenelse. destruct (check_true c v); reflexivity. Qed.
 
 Lemma ifthenelse_arity c v a : List.length a < 2 -> mod_ifthenelse c v a = (c, None, Some EModPoorArgs).
